@@ -297,7 +297,8 @@ func c03KeyAlphabet(k model.Kind) []model.Cell {
 		// extremes of opposite sign: a comparison by subtraction would overflow
 		return []model.Cell{model.I(math.MinInt64), model.I(-3), model.I(0), model.I(7), model.I(math.MaxInt64)}
 	case model.Float:
-		return []model.Cell{model.F(-1.5), model.F(0), model.F(2), model.NaN()}
+		// -0 and +0 are equal keys: the next order decides between them
+		return []model.Cell{model.F(-1.5), model.F(math.Copysign(0, -1)), model.F(0), model.F(2), model.NaN()}
 	case model.Bool:
 		return []model.Cell{model.B(false), model.B(true)}
 	case model.String:
@@ -322,6 +323,14 @@ func c03OrderLists() [][]ordSpec {
 		for _, f1 := range flags {
 			for _, f2 := range flags {
 				out = append(out, []ordSpec{{pair[0], f1.r, f1.n}, {pair[1], f2.r, f2.n}})
+			}
+		}
+	}
+	// the same column twice with other flags: the first occurrence decides, the later one can never matter
+	for _, f1 := range flags {
+		for _, f2 := range flags {
+			if f1 != f2 {
+				out = append(out, []ordSpec{{"k", f1.r, f1.n}, {"k2", false, false}, {"k", f2.r, f2.n}})
 			}
 		}
 	}
@@ -630,7 +639,7 @@ func init() {
 		ID:    "C03",
 		Level: "model_checking",
 		Rule: "case = (frame cells, index shape, order list[, seam entry]) enumerated exhaustively per layer " +
-			"(L1: all frames n<=N over per-type alphabets of 3-5 values + null (int extremes of opposite sign, strings that are prefixes of each other) x {0,1} second key x all 40 order lists x 7 index shapes; " +
+			"(L1: all frames n<=N over per-type alphabets of 3-5 values + null (int extremes of opposite sign, strings that are prefixes of each other, -0 and +0) x {0,1} second key x all 40 order lists over two columns + 12 lists naming a column twice with other flags x 7 index shapes; " +
 			"L2: all int sequences over {0,1} and {0,1,2} up to the stated lengths (all 7 index shapes for lengths 11..15, one rotating shape otherwise), ninther-size base patterns on all shapes in both directions with all <=2 point deviations; " +
 			"L4: Sort, then overwrite the key (Apply k := -k / Copy k <- id) or filter, then the same Sort again, on all sequences over {0,1,2} up to 6 rows and {0,1} for 13..15 rows; " +
 			"L3: real quickSort/heapSort entered through the seam on all small sequences/permutations and sub-ranges, plus adversarial inputs). " +
